@@ -60,6 +60,8 @@ func init() {
 			c.Rule("C10.R3", "failed assign fails the bind; bind only after allocateIP", 4)
 			ruleAssignInBind(c, "C10.R3")
 			ruleBindAfterAllocate(c, "C10.R3")
+			c.Rule("C10.R5", "the node recorded for an ip is refreshed by every successful bind", 2)
+			ruleUpdateAttrAlwaysWrites(c, "C10.R5")
 			c.Rule("C10.R4", "request fields come from the re-read record", 4)
 			ruleReleasers(c, "C10.R4", "fresh")
 		}})
@@ -92,6 +94,8 @@ func init() {
 		Run: func(c *Ctx) {
 			c.Rule("C07.R1", "count + allocate inside the pool lock (filter, pre-allocation, unbind); limit; error discipline", 20)
 			rulePoolLock(c, "C07.R1")
+			c.Rule("C07.R3", "pre-allocation only after the Pool object was stored successfully", 3)
+			rulePreallocAfterStore(c, "C07.R3")
 			c.Rule("C07.R2", "releaser of a lock wrapper is deferred immediately", 9)
 			ruleWrapperDeferred(c, "C07.R2")
 		}})
